@@ -294,6 +294,19 @@ def ctor_wiring(s, rule, cls, necessary_for="", skip=()):
     b = s.builder(inline=set())
     loc = s.loc(cls, "__init__")
     own = [a.arg for a in fn.args.posonlyargs + fn.args.args + fn.args.kwonlyargs if a.arg not in ("self",)]
+    from ..kinds import BOOL, FLOAT, INT, ann_kind_shape
+    numeric = {}
+    for a in fn.args.posonlyargs + fn.args.args + fn.args.kwonlyargs:
+        ann = a.annotation
+        kinds_ = set()
+        parts = [ann]
+        while parts:
+            x = parts.pop()
+            if isinstance(x, ast.BinOp) and isinstance(x.op, ast.BitOr):
+                parts += [x.left, x.right]
+            elif x is not None:
+                kinds_.add(ann_kind_shape(x)[0])
+        numeric[a.arg] = bool(kinds_ & {FLOAT, INT, BOOL})
     n = 0
     from ..vgraph import Ctx
     paths = live(b.paths(fn, Ctx(dc.module, dc, fn, ci), max_paths=600))
@@ -309,13 +322,29 @@ def ctor_wiring(s, rule, cls, necessary_for="", skip=()):
             none_on = any(isinstance(t, tuple) and t[0] == "cmp" and t[3] == NONE and t[2] == ("param", name) and ((t[1] == "IsNot" and not val) or (t[1] == "Is" and val))
                           for t, val in p.conds)
             ok = (name in ps and ps <= {name}) or none_on
+            # the value is the argument itself, possibly converted (array / float / int / tuple / broadcast), not a computation on it:
+            # `x or default` replaces a legitimate 0 / 0.0 / False by the default, arithmetic rescales what the caller configured
+            core = v
+            CONV = ("jax.numpy.array", "jax.numpy.asarray", "float", "int", "bool", "tuple", "str", "jax.numpy.broadcast_to", "jax.numpy.float32", "pathlib.Path", "round", "list", "dict",
+                    "collections.OrderedDict", "jax.numpy.atleast_1d")
+            for _ in range(6):
+                if isinstance(core, tuple) and core and core[0] == "call" and isinstance(core[1], tuple) and core[1][0] == "global" and core[1][1] in CONV and core[2]:
+                    core = core[2][0]
+                elif isinstance(core, tuple) and core and core[0] == "cast":
+                    core = core[2]
+                else:
+                    break
+            falsy = [x for x in walk(v) if isinstance(x, tuple) and x and x[0] == "boolop" and x[1] == "Or" and x[2] and x[2][0] == ("param", name)]
+            if ok and not none_on and falsy and numeric.get(name, False):
+                ok = False
             key = (name, ok, show(v, maxlen=100))
             if key in seen:
                 continue
             seen.add(key)
             n += 1
             s.ob(rule, f"{cls}.__init__.{name}", ok, f"attribute `{name}` is set from the constructor argument `{name}` and from no other argument", loc, key=f"ctor-{name}",
-                 detail=show(v, maxlen=140), necessary_for=necessary_for)
+                 detail=("`x or default` replaces a configured zero by the default: " if (not ok and not none_on and [x for x in walk(v) if isinstance(x, tuple) and x and x[0] == "boolop"]) else "") + show(v, maxlen=140),
+                 necessary_for=necessary_for)
     return n
 
 
@@ -375,4 +404,19 @@ def fields_initialised(s, rule, classes, necessary_for=""):
         n += 1
         s.ob(rule, f"{ci.name}.__init__", not miss, "the constructor assigns every field that has no default (the class can be instantiated)", P.loc(r[0].module, r[1]),
              key="field-not-initialised", detail="never assigned: " + ", ".join(miss) if miss else f"{len(need)} fields", necessary_for=necessary_for)
+    return n
+
+
+def no_late_binding(s, rule, prefixes, necessary_for=""):
+    """No function in the named module families creates, inside a loop, a function value that reads a loop-rebound variable freely."""
+    from ..effects import cell_var_from_loop, functions_of
+    P = s.prog
+    n = 0
+    for m, ci, qual, fn in functions_of(P, module_filter=lambda m_: m_.name.startswith(tuple(prefixes))):
+        hits = cell_var_from_loop(fn)
+        if not any(isinstance(x, (ast.For, ast.While)) for x in ast.walk(fn)):
+            continue
+        n += 1
+        s.ob(rule, qual.replace("lerax.", ""), not hits, "functions created inside a loop do not read loop variables late (closures bind at call time)", P.loc(m, fn),
+             key="cell-var-from-loop", detail="; ".join(hits[:3]), necessary_for=necessary_for)
     return n
